@@ -5,10 +5,24 @@ Import ListNotations.
 Open Scope Z_scope.
 Local Open Scope string_scope.
 
-(* FULL STATEMENT (outcomes): under every schedule every caller gets the original result flagged as a hit or a
-   retryable / conflict error, never a business error contradicting the committed outcome.  Refuted: a request that
-   missed the key in its lookup and then waits for the winner's row lock reads the balance the winner left and returns
-   "insufficient funds" (forgeLog only retries on deadlock / key conflict). *)
+(* at most one committed log per idempotency key, for ALL schedules and any number of requests: the unique index
+   (ledger, idempotency_key) lets an INSERT in only when no live row carries the key; an inserter that finds an in-flight row
+   waits for its transaction to finish and then either conflicts or goes in.  Invariant: ConcProofs.log_ok (lg_keys). *)
+Theorem C13_conc_at_most_one_log : forall hash prefix writers sched,
+  NoDup (filter nonempty (map l_ik (committed_logs (sched_outcome hash prefix writers sched)))).
+Proof. intros. apply unique_keys_committed. apply outcome_log_inv. Qed.
+Print Assumptions C13_conc_at_most_one_log.
+Theorem C13_conc_at_most_one_log_from : forall g sched, log_inv g -> NoDup (filter nonempty (map l_ik (committed_logs (run g sched)))).
+Proof. intros. apply unique_keys_committed. apply log_inv_all_schedules; auto. Qed.
+Print Assumptions C13_conc_at_most_one_log_from.
+
+(* OUTCOMES.  Statement: every caller gets the original result flagged as a hit or a retryable / conflict error, never a
+   business error contradicting the committed outcome.  On the code as found it was refuted (known finding
+   KF-C13-loser-business-error, fixed): a request that missed the key in its lookup and then waited for the winner's row lock
+   read the state the winner left and returned "insufficient funds" / "already reverted".  The repaired forgeLog /
+   forgeLogRetry (errorOrIKOutcome) look the key up once more before returning any error of a request that carries a key;
+   Ledger/Conc.v follows the repaired code (do_rollback -> PFetch -> do_fetch).  Proved for every state, hence under every
+   schedule: *)
 Definition spend_k (i : Z) : cop :=
   {| o_kind := KCreate; o_mode := MPlain; o_src := "alice"; o_dst := "bob"; o_asset := "USD"; o_amt := 100; o_allow := 0;
      o_ref := ""; o_ik := "k"; o_inh := i; o_tx := 0 |}.
@@ -16,19 +30,35 @@ Definition fund_alice : cop :=
   {| o_kind := KCreate; o_mode := MPlain; o_src := "world"; o_dst := "alice"; o_asset := "USD"; o_amt := 100; o_allow := 0;
      o_ref := ""; o_ik := ""; o_inh := 0; o_tx := 0 |}.
 
-Theorem C13_conc_refuted :
-  exists hash prefix writers sched w,
-    let g := sched_outcome hash prefix writers sched in
-    nth_error (results g) w = Some (RErr EInsufficient) /\
-    (exists l, In l (committed_logs g) /\ l_ik l = "k" /\ option_map (fun s => o_ik (w_op s)) (nth_error (g_ws g) w) = Some "k"
-               /\ option_map (fun s => o_inh (w_op s)) (nth_error (g_ws g) w) = Some (l_inh l)).
-Proof.
-  exists true, [fund_alice], [spend_k 0; spend_k 0], [0; 1; 1; 1; 1; 1; 1; 1; 0; 0]%nat, 0%nat.
-  vm_compute. split; [reflexivity|]. eexists. split; [right; left; reflexivity|]. repeat split; reflexivity.
-Qed.
-Print Assumptions C13_conc_refuted.
+Definition business (e : cerr) : bool :=
+  match e with EInsufficient | ERefConflict | EAlreadyReverted | ENotFound => true | _ => false end.
 
+(* (1) a request with a key never returns a business error straight from its rolled-back transaction: it goes to the lookup *)
+Theorem C13_conc_error_goes_to_lookup : forall g w s e,
+  get_w g w = Some s -> w_pc s = PRollback -> w_err s = Some e -> business e = true -> o_ik (w_op s) <> "" ->
+  option_map w_pc (get_w (step g w) w) = Some PFetch /\ option_map w_res (get_w (step g w) w) = Some (w_res s).
+Proof.
+  intros g w s e Hs Hpc He Hb Hik. unfold step. rewrite Hs, Hpc. unfold do_rollback. rewrite He.
+  assert (Hk : String.eqb (o_ik (w_op s)) "" = false) by (apply String.eqb_neq; auto).
+  unfold get_w in *.
+  destruct e; try discriminate; rewrite Hk; simpl; rewrite nth_upd_same, nth_clear, Hs; simpl; (split; [reflexivity|]); destruct (owner_is _ _); reflexivity.
+Qed.
+Print Assumptions C13_conc_error_goes_to_lookup.
+
+(* (2) the lookup answers with the committed log of the key when there is one with the same input: an idempotency hit *)
+Theorem C13_conc_lookup_returns_original : forall g w s l,
+  get_w g w = Some s -> w_pc s = PFetch -> find_ik g (o_ik (w_op s)) = Some l -> l_inh l = o_inh (w_op s) ->
+  option_map w_res (get_w (step g w) w) = Some (ROk (l_id l) (l_tx l) true).
+Proof.
+  intros g w s l Hs Hpc Hf Hi. unfold step. rewrite Hs, Hpc. unfold do_fetch. rewrite Hf.
+  apply Z.eqb_eq in Hi. rewrite Hi. unfold get_w in *. simpl. rewrite nth_upd_same, Hs. reflexivity.
+Qed.
+Print Assumptions C13_conc_lookup_returns_original.
+
+(* the schedule that used to make writer 0 answer "insufficient funds" now makes it answer with writer 1's log as a hit *)
 Example C13c_example :
-  let g := sched_outcome true [fund_alice] [spend_k 0; spend_k 0] [0; 1; 1; 1; 1; 1; 1; 1; 0; 0]%nat in
-  results g = [RErr EInsufficient; ROk 2 2 false] /\ map l_ik (committed_logs g) = [""; "k"].
-Proof. vm_compute. split; reflexivity. Qed.
+  let g := sched_outcome true [fund_alice] [spend_k 0; spend_k 0] [0; 1; 1; 1; 1; 1; 1; 1; 0; 0; 0]%nat in
+  results g = [ROk 2 2 true; ROk 2 2 false] /\ map l_ik (committed_logs g) = [""; "k"] /\
+  g_ev g = [(0, LIk, SDone); (1, LIk, SDone); (1, LBal, SDone); (1, LVol, SDone); (1, LTx, SDone); (1, LAdv, SDone); (1, LLog, SDone);
+            (1, LCommit, SDone); (0, LBal, SDone); (0, LRollback, SDone); (0, LIk, SDone)]%nat.
+Proof. vm_compute. repeat split; reflexivity. Qed.
